@@ -257,6 +257,8 @@ class ModelReplayer:
                 elif name == "value":
                     obj = sl[a[0]]
                     values = self.evaluate(obj, a[1])
+                elif name == "var":
+                    sl[a[0]] = type(sl[a[0]]).create_var(self.codec.py(a[1]))
                 elif name == "setmap":
                     m = sl[a[0]].mapping
                     n = len(m)
@@ -309,7 +311,11 @@ class ModelReplayer:
             raise
         except Exception as e:                  # noqa: the exception is the observation
             raised = type(e).__name__
-        return {"op": list(op), "raised": raised, "slots": self.snapshot(), "out": out, "new_anc": new_anc, "cert_z": cert_z,
+        try:
+            eq = [bool(sl[1] == sl[2]), bool(sl[2] == sl[1]), bool(sl[1] != sl[2])]
+        except Exception:      # noqa
+            eq = [None, None, None]
+        return {"op": list(op), "raised": raised, "slots": self.snapshot(), "out": out, "new_anc": new_anc, "cert_z": cert_z, "eq": eq,
                 "values": values, "info_equal": info_equal}
 
 
